@@ -196,11 +196,13 @@ class CG:
         self._emitting = set()
         self.gnames = {}; self._used_gn = set()
         self.out_types = []
+        self.union_cids = set()
         # nostd::shared_ptr<X>::PlacementBuffer = { [N x i8] } always holds a shared_ptr_wrapper (placement new):
         # declare the memory with that type (+ padding) so CBMC keeps the vptr / pointers as typed fields
         # instead of byte arrays. Same size and layout (checked with _Static_assert in the output).
         self.retyped = {}
-        for name, ent in mod.structs.items():
+        import os as _os
+        for name, ent in ([] if _os.environ.get('IR2C_NO_RETYPE') else mod.structs.items()):
             if name.endswith('::PlacementBuffer') and ent[0] is not None and len(ent[0]) == 1 and ent[0][0][0] == 'array' \
                and ent[0][0][2] == ('int', 8) and 'nostd::shared_ptr<' in name:
                 w = name.replace('struct.', 'class.', 1)[:-len('::PlacementBuffer')] + '::shared_ptr_wrapper'
@@ -248,10 +250,15 @@ class CG:
         for w in (8, 16, 32, 64):
             if n <= w: return 'int%d_t' % w
         return 'i128_t'
+    def is_union_slot(self, sname, ftype):
+        """clang represents a C++ union as a struct named union.* whose first member stands for all alternatives;
+        an 8-byte double/i64 member there may hold a pointer: declare it pointer-typed so CBMC keeps provenance"""
+        return sname.startswith('union.') and ftype in (('double',), ('int', 64))
     def struct_name(self, name):
         if name not in self.struct_ids:
             cid = 'struct S%d_%s' % (len(self.struct_ids), re.sub(r'[^A-Za-z0-9]', '_', name)[:40])
             self.struct_ids[name] = cid
+            if name.startswith('union.'): self.union_cids.add(cid)
             self._define_struct(name)
         return self.struct_ids[name]
     def _define_struct(self, name):
@@ -305,7 +312,8 @@ class CG:
             elif fields and fields[0] == 'RETYPED':
                 done_fields[cid] = ('RETYPED', self.ctype(fields[1]), fields[1], fields[2])
             else:
-                done_fields[cid] = ('STRUCT', [(self.ctype(f), f) for f in fields], packed)
+                uni = cid in self.union_cids
+                done_fields[cid] = ('STRUCT', [(('void*' if uni and f in (('double',), ('int', 64)) else self.ctype(f)), f) for f in fields], packed)
         self._all_defs = getattr(self, '_all_defs', {})
         self._all_defs.update(done_fields)
     def byvalue_deps(self, t):
@@ -500,7 +508,8 @@ def float_lit(tok, t):
     return '(%s)' % (h if t[0] == 'double' else h + 'f' if False else '(float)' + h)
 
 NOP_INTRINSICS = ('llvm.lifetime.', 'llvm.dbg.', 'llvm.experimental.noalias.scope.decl', 'llvm.assume',
-                  'llvm.prefetch', 'llvm.invariant.', 'llvm.stackrestore', 'llvm.var.annotation', 'llvm.donothing')
+                  'llvm.prefetch', 'llvm.invariant.', 'llvm.stackrestore', 'llvm.var.annotation', 'llvm.donothing',
+                  'llvm.x86.sse2.pause')
 
 class FnGen:
     def __init__(self, cg, mod, f):
@@ -790,6 +799,8 @@ class Gen:
                 if cur_t[1] in cg.retyped:
                     cur_t = ent[0][fi]
                     e = '((%s)(%s))' % (cg.ctype(PTR(cur_t)), e)
+                elif cg.is_union_slot(cur_t[1], ent[0][fi]):
+                    e = '((%s)&(%s)->f%d)' % (cg.ctype(PTR(ent[0][fi])), e, fi); cur_t = ent[0][fi]
                 else:
                     e = '(&(%s)->f%d)' % (e, fi); cur_t = ent[0][fi]
             elif k == 'lstruct':
@@ -873,6 +884,27 @@ class Gen:
                     for pb, vtoks in incoming:
                         phis.setdefault((pb, bn), []).append((dn, t, vtoks))
         fg.phis = phis
+        # pure data moves: an 8-byte integer/double load whose only uses are stores of the value. clang emits these
+        # for small memcpys / union copies; the bytes may be a pointer. Keep the temporary pointer-typed so CBMC's
+        # value sets follow it (a pointer laundered through double/i64 becomes an invalid object otherwise).
+        fg.rawmove = set()
+        body_text = [' '.join(x[1] for x in toks) for _, pl in parsed for toks in pl]
+        for _, pl in parsed:
+            for toks in pl:
+                if len(toks) > 4 and toks[0][0] == 'local' and toks[1][1] == '=' and toks[2][1] == 'load' and toks[3][1] in ('i64', 'double') and toks[4][1] == ',':
+                    nm = toks[0][1]
+                    pat_use = re.compile(r'(?<![\w.%\-"])' + re.escape(nm) + r'(?![\w.\-"])')
+                    pat_store = re.compile(r'^store (?:i64|double) ' + re.escape(nm) + r' ,')
+                    uses = 0; ok = True
+                    for bt in body_text:
+                        k = len(pat_use.findall(bt))
+                        if not k: continue
+                        if bt.startswith(nm + ' = load'):
+                            k -= 1
+                            if not k: continue
+                        if pat_store.match(bt) and k == 1: uses += 1
+                        else: ok = False; break
+                    if ok and uses >= 1: fg.rawmove.add(nm)
         # pass B: emit
         for bn, pl in parsed:
             code.append('%s: ;' % self.blabels[bn])
@@ -1009,11 +1041,17 @@ class Gen:
                 p.accept('syncscope')
                 order = p.next()[1]
                 self.define(fg, d, t, self.atomic_call('load', t, [a], order), code); return
+            if d in fg.rawmove:
+                dn = fg.lname(d); fg.decls[dn] = 'void*'; fg.vtypes[d] = t
+                code.append('%s = (*(void**)%s);' % (dn, a)); return
             self.define(fg, d, t, '(*%s)' % a, code); return
         if op == 'store':
             atomic = p.accept('atomic'); p.accept('volatile')
+            is_raw = p.peek(1)[0] == 'local' and p.peek(1)[1] in fg.rawmove
             v, t = self.typed_value(p, fg); p.expect(',')
             a, pt = self.typed_value(p, fg)
+            if is_raw and not atomic:
+                code.append('*(void**)%s = %s;' % (a, v)); return
             if atomic:
                 order = p.next()[1]
                 code.append('%s;' % self.atomic_call('store', t, [a, v], order)); return
@@ -1115,6 +1153,7 @@ class Gen:
 
     def agg_field(self, e, t, i):
         if t[0] == 'struct' and t[1] in self.cg.retyped: raise IRError('extract/insertvalue on retyped placement buffer')
+        if t[0] == 'struct' and self.cg.is_union_slot(t[1], self.mod.structs[t[1]][0][i]): raise IRError('extract/insertvalue on union slot')
         if t[0] == 'struct': return '%s.f%d' % (e, i), self.mod.structs[t[1]][0][i]
         if t[0] == 'lstruct': return '%s.f%d' % (e, i), t[1][i]
         if t[0] == 'array': return '%s.a[%d]' % (e, i), t[2]
